@@ -13,7 +13,7 @@ from vbuild import VERIF, InfraError
 
 BASE = dict(keys="1", lids="1, 2", counts="0", rcounts="0", exps="2, 20", classes='"imm", "dflt", "never"', units='"s"', vals="0, 1", delay=1,
             rewriteat=3, maxops=4, maxnow=5, maxoutage=4, crash="FALSE", admin="FALSE", a2="TRUE", a2b="TRUE", a3="TRUE", a11="FALSE", a26="FALSE", invs="",
-            updexps="", eqlater=1, eqearlier=1)
+            updexps="", eqlater=1, eqearlier=1, vfirst="FALSE", leftover="FALSE", tmpdat="FALSE")
 
 def cfg_text(**kw):
     with open(os.path.join(VERIF, "spec", "mc", "AofLog_base.cfg")) as fh:
@@ -42,6 +42,8 @@ def plans3(prop, quick):
     elif prop == "C08":
         pos = [("torn tail repaired: every crash image of the last batch + second epoch", dict(maxops=ops, crash="TRUE", a2="TRUE", invs="Inv_C08_Prefix Inv_C07_Replay"))]
         # A2 (torn record / header) is repaired in the code (7883626): A2Fixed = TRUE everywhere; what is left is A2b
+        mut = [("ValueFirst", "the value of a request is written before its record: a stop in between leaves an orphan frame, values appended after the restart shift",
+                dict(maxops=3, crash="TRUE", a2="TRUE", a2b="TRUE", vfirst="TRUE", classes='"imm"', vals="1, 2", lids="1", invs="Inv_C07_Replay"))]
         neg = [("A2b", "a whole record whose value frame was never written stays on reopen (second epoch)",
                 dict(maxops=3, crash="TRUE", a2="TRUE", a2b="FALSE", classes='"imm"', vals="1", invs="Inv_C07_Replay"))]
     else:
@@ -50,7 +52,11 @@ def plans3(prop, quick):
                 dict(maxops=ops + (0 if quick else 1), admin="TRUE", a3="TRUE", units='"s", "m"', exps="2, 7", updexps="7", lids="1", classes='"imm", "dflt"', vals="0",
                      invs="Inv_C16_Steps Inv_C07_Replay"))]
         neg = [("A3", "inputs removed before the rename; two renames", dict(maxops=3, admin="TRUE", a3="FALSE", classes='"imm"', invs="Inv_C16_Steps"))]
-        mut = [("EqLater0", "CheckLockedEqual one second too strict on the later side: the compaction drops the current update record of a live hold",
+        pos.append(("a compaction that dies while / after writing rewrite.aof.tmp; the restart's start-up compaction starts on the leftover files (both appended to)",
+                    dict(maxops=3, admin="TRUE", a3="TRUE", leftover="TRUE", keys="1, 2", lids="1", classes='"imm"', vals="1, 2", exps="20", invs="Inv_C16_Steps Inv_C07_Replay")))
+        mut = [("TmpDatKept", "a compaction that finds a leftover rewrite.aof.tmp starts the record file afresh but keeps appending to the leftover value file",
+                dict(maxops=3, admin="TRUE", a3="TRUE", leftover="TRUE", tmpdat="TRUE", keys="1, 2", lids="1", classes='"imm"', vals="1, 2", exps="20", invs="Inv_C16_Steps Inv_C07_Replay")),
+               ("EqLater0", "CheckLockedEqual one second too strict on the later side: the compaction drops the current update record of a live hold",
                 dict(maxops=3, admin="TRUE", a3="TRUE", eqlater=0, exps="2, 20", updexps="20", lids="1", classes='"imm"', vals="0", invs="Inv_C16_Steps"))]
     return pos, neg, mut
 
@@ -113,8 +119,14 @@ def cex_to_scenario(prop, tag, cex, n, delay):
         steps.append({"op": "stop"})
     elif prop == "C08":
         e2, _ = hist_to_steps(rest)
-        steps.append({"op": "stop", "cuts": "tail", "e2mod": 3, "e2off": 0, "epoch2": (e2 or []) + E2})
+        steps.append({"op": "stop", "cuts": "tail", "e2mod": 3, "e2off": 0, "epoch2": (e2 or []) + E2, "child": tag == "ValueFirst"})
+        gen_aof.longlived(steps)
+        if tag == "ValueFirst":
+            sc["preflush"] = 3      # the crash of the counterexample sits between the value and its record: images at aof.flush.enter
     else:
+        if tag == "TmpDatKept":
+            sc["leftover"] = True       # the counterexample's crash sits inside the compaction: images with partial / complete tmp files
+            gen_aof.longlived(steps)
         if not any(s["op"] == "rewrite" for s in steps):
             steps.append({"op": "rewrite", "during": []})
         steps.append({"op": "stop"})
@@ -166,6 +178,7 @@ def behaviours(seed, n, prop, wd):
         elif prop == "C08":
             steps = [s for s in steps if s["op"] != "rewrite"]
             steps.append({"op": "stop", "cuts": "tail", "e2mod": 4, "e2off": rng.randint(0, 3), "epoch2": E2})
+            gen_aof.longlived(steps)      # crash images are the subject: no hold ends during the (wall-clock) recovery phase
         else:
             steps.append({"op": "restart", "hard": rng.random() < 0.5, "cpt": "held", "epoch2": E2 + [{"op": "stop"}]})
         sc["steps"] = steps
